@@ -8,6 +8,12 @@ COMMON_TRUSTED = [
 ]
 
 CONF = {
+    "C01": {
+        "n": {"quick": 1000, "thorough": 12000},
+        "shard": 800,
+        "trusted_base": ["gopkg.in/yaml.v3 and encoding/json (decoders/encoders are Section variables of the model: the theorems hold for every decoder/encoder); byte determinism and error propagation of those libraries are decided by enumeration, not by a theorem"],
+        "assumptions": ["a Go map has distinct keys (gwf)", "NaN-free floats"],
+    },
     "C05": {
         "n": {"quick": 1400, "thorough": 18000},
         "shard": 1000,
